@@ -385,6 +385,20 @@ func (c *Cluster) MoveLeader(p *Partition, to int32) {
 	}
 }
 
+// DeposeLeader leaves the partition without a leader (an election is in
+// progress): replicas and in-sync replicas stay as they are.
+func (c *Cluster) DeposeLeader(p *Partition) {
+	p.Leader = -1
+	p.LeaderSince = c.S.Now()
+	p.Epoch++
+	p.Err = ErrLeaderNotAvailable
+	ws := p.waiters
+	p.waiters = nil
+	for _, w := range ws {
+		w()
+	}
+}
+
 // SetBrokerUp takes a broker down (connections reset, listener gone) or up.
 func (c *Cluster) SetBrokerUp(b *Broker, up bool) {
 	if b.Up == up {
